@@ -79,6 +79,8 @@ class Config:
         self.sym_method_filter = lambda ci, name: True   # which class members of a symbolic receiver are interpreted
         self.constructor_attrs = set()          # attribute names whose call constructs a fresh object
         self.emit_chk = False
+        self.record_truth_tests = False
+        self.emit_reads = False
         self.guard_pred = None                  # fact keys snapshotted into W/U events
         self.fact_defaults = []                 # callables (key) -> bool | None  (assumption environment)
 
